@@ -1,7 +1,9 @@
-(* Parse/StmtModel.v -- a family of STATEMENTS modelled whole, with error recovery: the sixteen DDL statements that consist of fixed words,
-   an optional IF EXISTS and a name --
+(* Parse/StmtModel.v -- a family of STATEMENTS modelled whole, with error recovery: twenty DDL statements -- the seventeen that consist of
+   fixed words, an optional IF EXISTS and a name --
      DROP SCHEMA | LOCALITY GROUP | PROTO BUNDLE | TABLE | INDEX | SEARCH INDEX | VECTOR INDEX | SEQUENCE | VIEW | ROLE | CHANGE STREAM |
-          MODEL | PROPERTY GRAPH,   ANALYZE,   CREATE SCHEMA,   CREATE DATABASE
+          MODEL | PROPERTY GRAPH,   ANALYZE,   CREATE SCHEMA,   CREATE DATABASE,   CREATE ROLE
+   -- and three with comma-separated lists (parseCommaSeparatedList), nested nodes and, for the privileges, look-ahead with backtracking --
+     RENAME TABLE a TO b {, c TO d},   GRANT privilege TO ROLE r {, r},   REVOKE privilege FROM ROLE r {, r}
    -- as parsed by parseDDL (parser.go) and reached from parseStatement, together with handleParseStatementError (the recover point of
    parseDDL: restore the lexer, record the error, skip to the next ";" or the end of input, return a BadDDL holding the skipped tokens).
    Statements outside the family answer None (not modelled).  With the list loop of Parse/ListLoop.v this gives a model of
@@ -11,7 +13,9 @@ From Coq Require Import String.
 From Verif Require Import Base.Bytes Tree.Tree Parse.ExprModel Parse.TypeModel.
 Local Open Scope Z_scope.
 
-Inductive dfield := FPos (z : Z) | FBool (b : bool) | FIdent (i : ident) | FPath (ids : list ident).
+(* a field of a node: a position, a flag, an identifier, a dotted name, a list of identifiers, a child node, a list of child nodes *)
+Inductive dfield := FPos (z : Z) | FBool (b : bool) | FIdent (i : ident) | FPath (ids : list ident) | FIdents (ids : list ident)
+                  | FSub (ty : string) (fs : list dfield) | FSubs (l : list dfield).
 Inductive dnode :=
 | DNode (ty : string) (fs : list dfield)
 | DBad (stmt_level : bool) (pos end_ : Z) (skipped : list ptok).   (* BadDDL { BadNode } / BadStatement { Hint: nil, BadNode } *)
@@ -57,7 +61,8 @@ Definition drop_rows : list row := [
 
 Definition create_rows : list row := [
   {| r_words := [KwLike "SCHEMA"]; r_ifexists := false; r_name := NIdent; r_node := "CreateSchema"; r_lastpos := false |};
-  {| r_words := [KwLike "DATABASE"]; r_ifexists := false; r_name := NIdent; r_node := "CreateDatabase"; r_lastpos := false |}
+  {| r_words := [KwLike "DATABASE"]; r_ifexists := false; r_name := NIdent; r_node := "CreateDatabase"; r_lastpos := false |};
+  {| r_words := [KwLike "ROLE"]; r_ifexists := false; r_name := NIdent; r_node := "CreateRole"; r_lastpos := false |}
 ]%string.
 
 (* expect the words in turn; the position of the last one *)
@@ -88,8 +93,68 @@ Fixpoint find_row (rows : list row) (t : ptok) : option row :=
 (* the other words the switch after CREATE / the first token of parseDDL know: statements outside the family *)
 Definition other_create (t : ptok) : bool :=
   is_kwlike t "LOCALITY" || is_kwlike t "PLACEMENT" || kis t "PROTO" || is_kwlike t "TABLE" || is_kwlike t "SEQUENCE" || is_kwlike t "VIEW"
-  || is_kwlike t "INDEX" || is_kwlike t "UNIQUE" || is_kwlike t "NULL_FILTERED" || is_kwlike t "SEARCH" || is_kwlike t "VECTOR" || is_kwlike t "ROLE"
+  || is_kwlike t "INDEX" || is_kwlike t "UNIQUE" || is_kwlike t "NULL_FILTERED" || is_kwlike t "SEARCH" || is_kwlike t "VECTOR"
   || is_kwlike t "CHANGE" || is_kwlike t "MODEL" || kis t "OR" || is_kwlike t "PROPERTY".
+
+(* ---------- comma-separated lists (parseCommaSeparatedList): the loop runs on fuel; the input length is always enough ---------- *)
+Fixpoint list_more {A} (item : toks -> res (A * toks)) (n : nat) (acc : list A) (ts : toks) : res (list A * toks) :=
+  match n with
+  | O => Fuel
+  | S n' => if kis (cur ts) "," then do (x, ts1) <- item (next ts); list_more item n' (acc ++ [x])%list ts1 else Ok (acc, ts)
+  end.
+Definition comma_list {A} (item : toks -> res (A * toks)) (ts : toks) : res (list A * toks) :=
+  do (x, ts1) <- item ts; list_more item (S (length ts)) [x] ts1.
+
+(* parseRenameTableTo, parseRenameTable *)
+Definition rename_to (ts : toks) : res (dfield * toks) :=
+  do (o, ts1) <- parse_ident ts; do (_, ts2) <- expect "TO" ts1; do (n, ts3) <- parse_ident ts2;
+  Ok (FSub "RenameTableTo" [FIdent o; FIdent n], ts3).
+Definition parse_rename (pos : Z) (ts : toks) : res (dnode * toks) :=
+  do (_, ts1) <- expect_kw "TABLE" ts; do (l, ts2) <- comma_list rename_to ts1; Ok (DNode "RenameTable" [FPos pos; FSubs l], ts2).
+
+(* tryParseTablePrivilegeColumns: the columns (nil without parentheses) and the position of ")" (InvalidPos = -1 without) *)
+Definition priv_columns (ts : toks) : res ((dfield * Z) * toks) :=
+  if kis (cur ts) "(" then
+    do (cols, ts1) <- comma_list parse_ident (next ts); do (rp, ts2) <- expect ")" ts1; Ok ((FIdents cols, ppos rp), ts2)
+  else Ok ((FIdents [], -1), ts).
+
+(* parseTablePrivilege *)
+Definition table_privilege (ts : toks) : res (dfield * toks) :=
+  let t := cur ts in
+  let with_cols (ty : string) := do (cr, ts1) <- priv_columns (next ts); let '(cols, rp) := cr in Ok (FSub ty [FPos (ppos t); FPos rp; cols], ts1) in
+  if kis t "SELECT" then with_cols "SelectPrivilege"%string
+  else if is_kwlike t "INSERT" then with_cols "InsertPrivilege"%string
+  else if is_kwlike t "UPDATE" then with_cols "UpdatePrivilege"%string
+  else if is_kwlike t "DELETE" then Ok (FSub "DeletePrivilege" [FPos (ppos t)], next ts)
+  else Err (ppos t).
+
+(* parsePrivilege: the two SELECT ... ON forms are tried first by look-ahead (the lexer is restored when they do not apply) *)
+Definition privilege (ts : toks) : res (dfield * toks) :=
+  let t := cur ts in
+  let t1 := cur (next ts) in
+  let t2 := cur (next (next ts)) in
+  let after3 := next (next (next ts)) in
+  if kis t "SELECT" && kis t1 "ON" && is_kwlike t2 "VIEW" then
+    do (names, r) <- comma_list parse_ident after3; Ok (FSub "SelectPrivilegeOnView" [FPos (ppos t); FIdents names], r)
+  else if is_kwlike t "EXECUTE" then
+    do (_, r1) <- expect "ON" (next ts); do (_, r2) <- expect_kw "TABLE" r1; do (_, r3) <- expect_kw "FUNCTION" r2;
+    do (names, r) <- comma_list parse_ident r3; Ok (FSub "ExecutePrivilegeOnTableFunction" [FPos (ppos t); FIdents names], r)
+  else if is_kwlike t "ROLE" then
+    do (names, r) <- comma_list parse_ident (next ts); Ok (FSub "RolePrivilege" [FPos (ppos t); FIdents names], r)
+  else if kis t "SELECT" && kis t1 "ON" && is_kwlike t2 "CHANGE" then
+    do (_, r1) <- expect_kw "STREAM" after3;
+    do (names, r) <- comma_list parse_ident r1; Ok (FSub "SelectPrivilegeOnChangeStream" [FPos (ppos t); FIdents names], r)
+  else
+    do (privs, r1) <- comma_list table_privilege ts; do (_, r2) <- expect "ON" r1; do (_, r3) <- expect_kw "TABLE" r2;
+    do (names, r) <- comma_list parse_ident r3; Ok (FSub "PrivilegeOnTable" [FSubs privs; FIdents names], r).
+
+(* parseGrant / parseRevoke *)
+Definition parse_grant (revoke : bool) (pos : Z) (ts : toks) : res (dnode * toks) :=
+  do (pv, ts1) <- privilege ts;
+  do (_, ts2) <- expect (if revoke then "FROM" else "TO") ts1;
+  do (_, ts3) <- expect_kw "ROLE" ts2;
+  do (roles, ts4) <- comma_list parse_ident ts3;
+  Ok (DNode (if revoke then "Revoke" else "Grant") [FPos pos; pv; FIdents roles], ts4).
 
 (* parseDDL, success path; None = a statement outside the family *)
 Definition ddl_body (ts : toks) : option (res (dnode * toks)) :=
@@ -108,7 +173,10 @@ Definition ddl_body (ts : toks) : option (res (dnode * toks)) :=
     | None => Some (Err (ppos (cur ts1)))           (* expected pseudo keyword: TABLE, INDEX, ... *)
     end
   else if is_kwlike t "ANALYZE" then Some (do (a, ts1) <- expect_kw "ANALYZE" ts; Ok (DNode "Analyze" [FPos (ppos a)], ts1))
-  else if is_kwlike t "ALTER" || is_kwlike t "RENAME" || is_kwlike t "GRANT" || is_kwlike t "REVOKE" then None
+  else if is_kwlike t "RENAME" then Some (parse_rename (ppos t) (next ts))
+  else if is_kwlike t "GRANT" then Some (parse_grant false (ppos t) (next ts))
+  else if is_kwlike t "REVOKE" then Some (parse_grant true (ppos t) (next ts))
+  else if is_kwlike t "ALTER" then None
   else Some (Err (ppos t)).                          (* expected token: CREATE, <ident> / expected pseudo keyword: ALTER, DROP *)
 
 (* handleParseStatementError: from the first token of the failed statement, everything up to the next ";" or the end of input *)
@@ -139,12 +207,15 @@ Definition sp_stmt (ts : toks) : option (dnode * toks * nat) :=
     let '(sk, endp, rest) := sskip ts [] (ppos t) in Some (DBad true (ppos t) endp sk, rest, 1%nat).
 
 (* ---------- the AST as a universal tree ---------- *)
-Definition field_tree (f : dfield) : tree :=
+Fixpoint field_tree (f : dfield) : tree :=
   match f with
   | FPos z => TPos z
   | FBool b => TBool b
   | FIdent i => t_ident i
   | FPath ids => TNode "Path" [TList (map t_ident ids)]
+  | FIdents ids => TList (map t_ident ids)
+  | FSub ty fs => TNode ty (map field_tree fs)
+  | FSubs l => TList (map field_tree l)
   end.
 Definition dnode_tree (d : dnode) : tree :=
   match d with
